@@ -1,2 +1,63 @@
-(* C09 - references cover exactly the data that was returned (theorems added as they are proved) *)
-From BSE Require Import Model.Val Model.Refs.
+(* C09 - references cover exactly the data that was returned.  Statements: Proofs/RefsDefs.v. *)
+From Coq Require Import Sorting.Permutation.
+From BSE Require Import Model.Val Model.Basis Model.Refs Proofs.RefsDefs Proofs.RefsSpec.
+
+(* every selected element in exactly one group, no empty group *)
+Theorem groups_partition : groups_partition_stmt.
+Proof. exact RefsSpec.groups_partition. Qed.
+Print Assumptions groups_partition.
+
+(* a group's information = the key-resolved reference list of each of its elements (hence identical within the group) *)
+Theorem group_info : group_info_stmt.
+Proof. exact RefsSpec.group_info. Qed.
+Print Assumptions group_info.
+
+(* descriptions kept, keys in order, each resolved to its entry of the reference database; an unknown key is an error *)
+Theorem resolve_info_spec : resolve_info_spec_stmt.
+Proof. exact RefsSpec.resolve_info_spec. Qed.
+Print Assumptions resolve_info_spec.
+
+Theorem unknown_key_refused : unknown_key_refused_stmt.
+Proof. exact RefsSpec.unknown_key_refused. Qed.
+Print Assumptions unknown_key_refused.
+
+(* BibTeX / RIS / EndNote: the key and every stored field value (each author, editor, title, ...) are in the rendering *)
+Theorem bib_fields : bib_fields_stmt.
+Proof. exact RefsSpec.bib_fields. Qed.
+Print Assumptions bib_fields.
+
+Theorem ris_fields : ris_fields_stmt.
+Proof. exact RefsSpec.ris_fields. Qed.
+Print Assumptions ris_fields.
+
+Theorem endnote_fields : endnote_fields_stmt.
+Proof. exact RefsSpec.endnote_fields. Qed.
+Print Assumptions endnote_fields.
+
+Theorem sort_single_reference_keeps_fields : sort_single_reference_perm_stmt.
+Proof. exact RefsSpec.sort_single_reference_perm. Qed.
+Print Assumptions sort_single_reference_keeps_fields.
+
+(* the assembled text carries the library block and mentions every cited key ... *)
+Theorem convert_mentions : convert_mentions_stmt.
+Proof. exact RefsSpec.convert_mentions. Qed.
+Print Assumptions convert_mentions.
+
+(* ... and contains the full rendering of an entry stored under every cited key *)
+Theorem convert_renders_every_cited_key :
+  forall f txt desc libs groups s, convert_references f txt desc libs groups = inr s ->
+    forall g refs k r, In g groups -> group_refs g = inr refs -> In (k, r) refs ->
+      exists g0 refs0 r0 r0' t, In g0 groups /\ group_refs g0 = inr refs0 /\ In (k, r0) refs0 /\
+        sort_single_reference r0 = inr r0' /\ single f txt k r0' = inr t /\ infix t s = true.
+Proof. exact RefsSpec.convert_mentions_strong. Qed.
+Print Assumptions convert_renders_every_cited_key.
+
+(* notes: as stored, followed by the text of exactly the references whose keys they mention *)
+Theorem process_notes_spec : process_notes_spec_stmt.
+Proof. exact RefsSpec.process_notes_spec. Qed.
+Print Assumptions process_notes_spec.
+
+Example bib_demo :
+  write_bib "doe2020a" [("_entry_type", VStr "article"); ("authors", VStrs ["Doe, J."; "Roe, R."]); ("title", VStr "T"); ("year", VStr "2020")]
+  = inr ("@article{doe2020a," +++ nl +++ "    author = {Doe, J. and Roe, R.}," +++ nl +++ "    title = {T}," +++ nl +++ "    year = {2020}" +++ nl +++ "}").
+Proof. vm_compute. reflexivity. Qed.
